@@ -122,7 +122,10 @@ func genC20(g *Gen, i int) Group {
 	if g.p(0.5) && len(regs) > 0 {
 		pos := g.n(len(entries) + 1)
 		var bad *Reg
-		switch g.n(3) {
+		switch g.n(4) {
+		case 3: // faulty twice: no constructor AND options that exclude each other - the same error as the direct call's
+			bad = &Reg{ID: g.nextRid, Life: g.life([3]int{1, 1, 1}), Form: Form{Kind: "inst", Ty: g.n(8)}, Dyn: []int{0}, Bad: 1 + g.n(2), Name: 1, Group: 1}
+			g.nextRid++
 		case 0: // duplicate of an earlier registration's identity
 			src := regs[g.n(len(regs))]
 			cp := *src
@@ -390,6 +393,15 @@ func genContainer(g *Gen, prop string, i int) Group {
 		h.MaxScopes = 6
 	}
 	regs := g.RegSet(cfg)
+	if (prop == "C07" || prop == "C03" || prop == "C06" || prop == "C01") && i%12 == 10 {
+		return g.rebuildAfterChangeCase(i, prop)
+	}
+	if prop == "C02" && i%13 == 8 {
+		return g.sameTypeTwiceCase(i)
+	}
+	if prop == "C08" && i%12 == 5 {
+		return g.keyedBuiltinCase(i)
+	}
 	if prop == "C14" && i%8 == 5 {
 		return g.initFailsWithForeignDisposedCase(i)
 	}
@@ -1035,6 +1047,107 @@ func (g *Gen) initFailsWithForeignDisposedCase(i int) Group {
 	}
 	ops = append(ops, Op{Kind: "closeprovider", P: 0})
 	return Group{Cases: []Case{{Name: fmt.Sprintf("%d/init-fails-with-foreign-disposed", i), Ops: ops}}}
+}
+
+// rebuildAfterChangeCase (C07, C03, C06, C01): one collection built twice with a change in between - what the first
+// Build worked out (dependency lists, lifetimes of dependencies, which constructors have run) says nothing about the
+// second: (a) an optional dependency that is unregistered at the first Build and registered SCOPED before the second (a
+// singleton or transient consumer must now be refused); (b) a singleton dependency replaced by a transient one (every
+// construction of the consumer in the second provider gets a new instance); (c) nothing changed (the same verdict, the
+// multi-output singleton constructed again).
+func (g *Gen) rebuildAfterChangeCase(i int, prop string) Group {
+	tys := g.rnd.Perm(8)
+	mk := func(l int, ps []Param, rets []int, inobj bool) *Reg {
+		r := &Reg{ID: g.nextRid, Life: l, Form: Form{Kind: "ctor", InObj: inobj, Params: ps, Rets: rets}, Dyn: append([]int(nil), rets...)}
+		for range rets {
+			r.CFail = append(r.CFail, false)
+		}
+		g.nextRid++
+		return r
+	}
+	kind := g.n(3)
+	if prop == "C07" {
+		kind = 0
+	} else if prop == "C03" {
+		kind = 1
+	}
+	var ops []Op
+	use := func(p int, ts ...int) {
+		ops = append(ops, Op{Kind: "createscope", P: p, Parent: 0})
+		for k := 0; k < 2; k++ {
+			for _, t := range ts {
+				ops = append(ops, Op{Kind: "resolve", P: p, H: 1, Ty: t}, Op{Kind: "resolve", P: p, H: 0, Ty: t})
+			}
+		}
+	}
+	switch kind {
+	case 0:
+		consumerLife := []int{Singleton, Transient, Singleton, Scoped}[g.n(4)]
+		consumer := mk(consumerLife, []Param{{Dep: Dep{Ty: tys[1], Opt: true}}}, []int{tys[0]}, true)
+		late := mk(Scoped, nil, []int{tys[1]}, false)
+		ops = append(ops, Op{Kind: "add", Reg: consumer}, Op{Kind: "build"})
+		use(0, tys[0])
+		ops = append(ops, Op{Kind: "add", Reg: late}, Op{Kind: "build"}) // refused for a singleton or transient consumer
+		use(1, tys[0], tys[1])
+	case 1:
+		dep := mk(Singleton, nil, []int{tys[1]}, false)
+		consumer := mk(Transient, []Param{{Dep: Dep{Ty: tys[1]}}}, []int{tys[0]}, g.p(0.5))
+		other := mk(Scoped, []Param{{Dep: Dep{Ty: tys[0]}}, {Dep: Dep{Ty: tys[1]}}}, []int{tys[2]}, false)
+		ops = append(ops, Op{Kind: "add", Reg: dep}, Op{Kind: "add", Reg: consumer}, Op{Kind: "add", Reg: other}, Op{Kind: "build"})
+		use(0, tys[0], tys[2])
+		dep2 := mk(Transient, nil, []int{tys[1]}, false)
+		ops = append(ops, Op{Kind: "remove", Ty: tys[1]}, Op{Kind: "add", Reg: dep2}, Op{Kind: "build"})
+		use(1, tys[0], tys[2], tys[0])
+	default:
+		multi := mk(Singleton, nil, []int{tys[0], tys[1]}, false)
+		user := mk(g.life([3]int{1, 1, 1}), []Param{{Dep: Dep{Ty: tys[1]}}}, []int{tys[2]}, false)
+		ops = append(ops, Op{Kind: "add", Reg: multi}, Op{Kind: "add", Reg: user}, Op{Kind: "build"})
+		use(0, tys[2], tys[0])
+		ops = append(ops, Op{Kind: "build"})
+		use(1, tys[2], tys[1], tys[0])
+	}
+	ops = append(ops, Op{Kind: "closeprovider", P: 1}, Op{Kind: "closeprovider", P: 0})
+	return Group{Cases: []Case{{Name: fmt.Sprintf("%d/rebuild-after-change-%d", i, kind), Ops: ops}}}
+}
+
+// sameTypeTwiceCase (C02): a scoped constructor that returns the same type twice, registered into a group (the two
+// members differ by their position only): each scope holds one instance per member, every resolution of the group - direct
+// or through a group field - returns those two, and the constructor runs once per scope.
+func (g *Gen) sameTypeTwiceCase(i int) Group {
+	tys := g.rnd.Perm(8)
+	t := tys[0]
+	if g.p(0.5) {
+		t += 8
+	}
+	grp := 1 + g.n(2)
+	m := &Reg{ID: g.nextRid, Life: Scoped, Form: Form{Kind: "ctor", Rets: []int{t, t}}, Dyn: []int{t, t}, CFail: []bool{false, false}, Group: grp}
+	g.nextRid++
+	c := &Reg{ID: g.nextRid, Life: Scoped, Form: Form{Kind: "ctor", InObj: true, Params: []Param{{Dep: Dep{Ty: t, Group: grp}}}, Rets: []int{tys[1]}}, Dyn: []int{tys[1]}, CFail: []bool{false}}
+	g.nextRid++
+	ops := []Op{{Kind: "add", Reg: m}, {Kind: "add", Reg: c}, {Kind: "build"}}
+	for h := 1; h <= 2; h++ {
+		ops = append(ops, Op{Kind: "createscope", P: 0, Parent: 0},
+			Op{Kind: "resolvegroup", P: 0, H: h, Ty: t, Group: grp}, Op{Kind: "resolve", P: 0, H: h, Ty: tys[1]},
+			Op{Kind: "resolvegroup", P: 0, H: h, Ty: t, Group: grp}, Op{Kind: "resolve", P: 0, H: h, Ty: tys[1]})
+	}
+	ops = append(ops, Op{Kind: "resolvegroup", P: 0, H: 0, Ty: t, Group: grp}, Op{Kind: "closeprovider", P: 0})
+	return Group{Cases: []Case{{Name: fmt.Sprintf("%d/same-type-twice", i), Ops: ops}}}
+}
+
+// keyedBuiltinCase (C08): a dependency on a built-in type UNDER A NAME (`Ctx context.Context `name:"request"``): the
+// scope supplies the built-ins for un-keyed requests only and the reserved types cannot be registered under any key, so
+// the dependency is unsatisfiable - Build refuses the set, for every lifetime of the consumer (unless the field is optional).
+func (g *Gen) keyedBuiltinCase(i int) Group {
+	tys := g.rnd.Perm(8)
+	b := []int{tCtx, tScope, tProv}[g.n(3)]
+	opt := g.p(0.25)
+	c := &Reg{ID: g.nextRid, Life: g.life([3]int{1, 2, 2}), Form: Form{Kind: "ctor", InObj: true, Params: []Param{{Dep: Dep{Ty: b, Name: 1 + g.n(2), Opt: opt}}}, Rets: []int{tys[0]}}, Dyn: []int{tys[0]}, CFail: []bool{false}}
+	g.nextRid++
+	o := &Reg{ID: g.nextRid, Life: Scoped, Form: Form{Kind: "ctor", Rets: []int{tys[1]}}, Dyn: []int{tys[1]}, CFail: []bool{false}}
+	g.nextRid++
+	ops := []Op{{Kind: "add", Reg: o}, {Kind: "add", Reg: c}, {Kind: "build"}, {Kind: "createscope", P: 0, Parent: 0},
+		{Kind: "resolve", P: 0, H: 1, Ty: tys[0]}, {Kind: "resolve", P: 0, H: 0, Ty: tys[0]}, {Kind: "resolve", P: 0, H: 1, Ty: tys[1]}, {Kind: "closeprovider", P: 0}}
+	return Group{Cases: []Case{{Name: fmt.Sprintf("%d/keyed-builtin", i), Ops: ops}}}
 }
 
 // wideTree: a scope with several children (created without a context of their own, so that closing the
